@@ -16,11 +16,10 @@ VARIABLES t, due, hist, prev, okfire
 vars == <<t, due, hist, prev, okfire>>
 
 View == <<t, due>>
-Key  == ToString(View)
 
 Step(e, x) == [e |-> e, x |-> x]
 Rec(step) == /\ hist' = IF Walk THEN Append(hist, step) ELSE <<step>>
-             /\ prev' = Key
+             /\ prev' = View
 
 FireItems(fired) == [k \in 1..Len(fired) |-> <<"fire", fired[k]>>]
 
@@ -52,7 +51,7 @@ DoTick ==
                /\ Len(p.fired) = Cardinality({i \in Ids : due[i] = 1})
   /\ Rec(Step(<<"tick">>, FireItems(p.fired)))
 
-Init == t = TmrInit /\ due = [i \in Ids |-> -1] /\ hist = <<>> /\ prev = "" /\ okfire = TRUE
+Init == t = TmrInit /\ due = [i \in Ids |-> -1] /\ hist = <<>> /\ prev = <<>> /\ okfire = TRUE
 Next == \/ \E pr \in Pairs : DoCreate(pr[1], pr[2])
         \/ \E h \in -3..Max-1 : DoDelete(h)
         \/ DoTick
@@ -89,6 +88,6 @@ Probe(tt) ==
      \o <<Step(<<"tmr_create", h, 1, 0>>, << <<"ret", IF r.ret >= 0 THEN 0 ELSE -1>> >>)>>
      \o <<Step(<<"tick">>, FireItems(p3.fired))>> \o <<PoolStep(p3.st)>>
 
-EmitEdge == hist = <<>> \/ PrintT(<<"EDGE", ToJson([c |-> Max, s |-> prev, e |-> hist[Len(hist)], d |-> Key, p |-> Probe(t)])>>)
+EmitEdge == hist = <<>> \/ PrintT(<<"EDGE", ToJson([c |-> Max, s |-> prev, e |-> hist[Len(hist)], d |-> View, p |-> Probe(t)])>>)
 EmitWalk == Len(hist) < WalkLen \/ (PrintT(<<"WALK", ToJson([c |-> Max, h |-> hist, p |-> Probe(t)])>>) /\ FALSE)
 =============================================================================
